@@ -203,6 +203,7 @@ def main(scen_name, tier):
         for o in opts: modules[o] = build.build_module(os.path.join(workdir, o), scen.HARNESSES, o, 'm' + o)
         t_build = time.time() - t
         jobs = scen.jobs(tier, seed)
+        for j in jobs: j['opts_levels'] = list(opts)
         random.Random(seed).shuffle(jobs)
         budget = scen.BUDGET[tier] if hasattr(scen, 'BUDGET') else (240 if tier == 'quick' else 3600)
         if os.environ.get('VERIF_BUDGET'): budget = int(os.environ['VERIF_BUDGET'])
@@ -283,6 +284,7 @@ def report(scen, prop, tier, seed, jobs, results, cut, nat, known, ev_path, t_st
         'violations_reported': nviol, 'known_findings_seen': nknown, 'status': status,
         'inconclusive': incon[:20], 'crashes': crashes[:3], 'engine_native_mismatches': mismatches[:10],
         'exhaustive': False,
+        'programs': len(jobs) * max(1, len(getattr(scen, 'OPTS', ['O1'])(tier) if callable(getattr(scen, 'OPTS', None)) else getattr(scen, 'OPTS', ['O1']))), 'disagreements_checked': agg['obligations'],
     }
     ev = {'property_id': prop, 'tier': tier, 'seed': seed, 'level': getattr(scen, 'LEVEL', 'model_checking'), 'coverage': cov,
           'assumptions': getattr(scen, 'ASSUMPTIONS', []) + COMMON_ASSUMPTIONS, 'wall_s': round(wall, 1), 'violations': nviol}
